@@ -265,7 +265,21 @@ def run_estimators(df, meta, bound):
         t = 'average_treatment_effect' if meta['outcome'] != 'binary' else 'risk_difference'
         results['TMLE'] = ([float(getattr(vals[False], t))], [float(getattr(vals[True], t))])
 
+    def iptw_schemes():
+        # every weighting scheme must be built from the TRUNCATED probabilities (also the odds-type SMR weights)
+        out = []
+        for stab in (False, True):
+            for std in ('population', 'exposed', 'unexposed'):
+                raw = IPTW(df, 'A', 'Y', standardize=std)
+                raw.treatment_model(rhs, stabilized=stab, bound=False, print_results=False)
+                bd = IPTW(df, 'A', 'Y', standardize=std)
+                bd.treatment_model(rhs, stabilized=stab, bound=bound, print_results=False)
+                out.append((stab, std, np.asarray(raw.df['__denom__'], dtype=float), np.asarray(raw.df['__numer__'], dtype=float),
+                            np.asarray(bd.iptw, dtype=float), np.asarray(bd.df['A']).astype(int)))
+        sites['__schemes__'] = out
+
     guard('IPTW', iptw)
+    guard('IPTW.schemes', iptw_schemes)
     guard('AIPTW', aiptw)
     guard('TMLE', tmle)
     return sites, results, errors
@@ -281,6 +295,16 @@ def estimator_part(ctx, fails):
         payload = {'part': 'estimator', 'data': df.to_dict('list'), 'meta': meta, 'bound': bound}
         for name, err in errors.items():
             fails.append((len(df), '%s.bound.raises' % name, '%s with bound=%r raised %s' % (name, bound, err), payload))
+        schemes = sites.pop('__schemes__', [])
+        for stab, std, d, nn, w, a in schemes:
+            k = min(len(d), 20)
+            tcoq = {'population': 'TAll', 'exposed': 'TExposed', 'unexposed': 'TUnexposed'}[std]
+            nclip = 'clip1 %s %s %s' % (qlit(lohi[0]), qlit(lohi[1]), qlit(float(nn[0]))) if stab else '1'
+            items = '; '.join('ipw_formula %s %s (%s) %s (clip1 %s %s %s)' % ('true' if stab else 'false', tcoq, nclip,
+                                                                            'true' if a[i] else 'false', qlit(lohi[0]), qlit(lohi[1]), qlit(float(d[i])))
+                              for i in range(k))
+            work.append(('IPTW.weights.%s.%s' % ('stabilized' if stab else 'unstabilized', std), d[:k], w[:k], bkind, bound, lohi, payload, len(df)))
+            exprs.append('Qflat [%s]' % items)
         for site, (raw, used) in sites.items():
             k = min(len(raw), 25)      # exact Q evaluation of a prefix of the rows is enough per site
             work.append((site, raw[:k], used[:k], bkind, bound, lohi, payload, len(df)))
@@ -290,7 +314,7 @@ def estimator_part(ctx, fails):
                 if any(abs(x - y) > 1e-9 * max(1, abs(x)) for x, y in zip(r0, r1)):
                     fails.append((len(df), '%s.bound.unreached-changes' % est,
                                   '%s: a bound no fitted probability reaches changed the result %r -> %r' % (est, r0, r1), payload))
-    res, errs = coq_eval(ctx, 'c17b', ['Zepid.Base.QUtil', 'Zepid.Model.Bounds'], exprs, shard=40)
+    res, errs = coq_eval(ctx, 'c17b', ['Zepid.Base.QUtil', 'Zepid.Base.Rows', 'Zepid.Model.Estimators', 'Zepid.Model.Bounds'], exprs, shard=40)
     if errs:
         ctx.broken_ties.append('coq evaluation failed: ' + errs[0][1][-300:])
     for (site, raw, used, bkind, bound, lohi, payload, n), r in zip(work, res):
@@ -303,9 +327,9 @@ def estimator_part(ctx, fails):
         bad = [i for i, (u, q) in enumerate(zip(used, exp)) if not close(float(u), q, 1e-9)]
         if bad:
             i = bad[0]
-            fails.append((n, site + '.not-clipped', '%s with bound=%r used probability %r where the clip of the fitted %r is %s'
+            fails.append((n, site + '.not-clipped', '%s with bound=%r used probability/weight %r where the value built from the clip of the fitted %r is %s'
                           % (site, bound, float(used[i]), float(raw[i]), exp[i]), payload))
-        if any(float(u) < lohi[0] - 1e-12 or float(u) > lohi[1] + 1e-12 for u in used):
+        if not site.startswith('IPTW.weights.') and any(float(u) < lohi[0] - 1e-12 or float(u) > lohi[1] + 1e-12 for u in used):
             fails.append((n, site + '.out-of-range', '%s used a probability outside [%r, %r]' % (site, lohi[0], lohi[1]), payload))
 
 
